@@ -165,6 +165,7 @@ def build(chk: Check) -> None:
     reformulate_histories(chk)
     closure_lemma(chk)
     define_missing_amplitudes_contract(chk)
+    registration_contracts(chk)
 
 
 def closure_lemma(chk: Check) -> None:
@@ -288,3 +289,108 @@ def define_missing_amplitudes_contract(chk: Check) -> None:
     call_sites = textwrap.dedent(inspect.getsource(getattr(H.HelicityAmplitudeBuilder, "_HelicityAmplitudeBuilder__formulate_top_expression")))
     chk.struct("formulate_top_expression.calls_define_missing_amplitudes_on_the_intensity", "__define_missing_amplitudes(intensity)" in call_sites,
                "ampform.helicity.HelicityAmplitudeBuilder.__formulate_top_expression", witness=call_sites[-300:], lemma=True, replay=zoo_replay)
+
+
+def registration_contracts(chk: Check) -> None:
+    """Premises of P1 that do not depend on the reaction (for ALL transitions / particles):
+    (a) E3: `__generate_amplitude_coefficient` and `__generate_helicity_coupling` return a symbol that IS a key of parameter_defaults
+        afterwards, and change no other entry;
+    (b) every dynamics builder of ampform.dynamics.builder, called on a symbolic particle and a variable set of fresh symbols: the free
+        symbols of the returned expression are variable-set symbols or keys of the returned parameter map (which `__formulate_dynamics`
+        copies into parameter_defaults: C13's contract)."""
+    import inspect
+
+    import attrs
+    import qrules
+    from ampform import helicity as H
+    from ampform.dynamics import builder as DB
+    from vlib.pyvc import Executor, Obj, Rec, SMap, SV, Unsupported
+
+    def zoo_replay(_m=None):
+        for cfg in models.config_space("quick", ["jpsi_gamma_pi0_pi0", "jpsi_p_pbar"]):
+            try:
+                post = postconditions(models.build(cfg))
+            except Exception as e:  # noqa: BLE001
+                return {"reproduced": True, "input": cfg.tag, "observed": f"{type(e).__name__}: {e}"}
+            if not post["P1.free_symbols_defined"][0]:
+                return {"reproduced": True, "input": cfg.tag, "observed": post["P1.free_symbols_defined"][1], "expected": "every free symbol is a parameter or a kinematic variable"}
+        return {"reproduced": False}
+
+    chk.assume("native contracts (registration): NameGenerator.generate_*_suffix are pure functions of (transition, node); sp.Symbol(name) is a pure function of the name; "
+               "f-strings are injective in their hole (A-pure)")
+    for private, nargs in (("__generate_amplitude_coefficient", 1), ("__generate_helicity_coupling", 2)):
+        FN = f"ampform.helicity.HelicityAmplitudeBuilder.{private}"
+        meth = getattr(H.HelicityAmplitudeBuilder, "_HelicityAmplitudeBuilder" + private, None)
+        chk.struct(f"registration[{private}].exists", meth is not None, FN, lemma=True, replay=zoo_replay)
+        if meth is None:
+            continue
+        ex = Executor("reg")
+        has0, val0 = z3.Array("par_has0", Obj, z3.BoolSort()), z3.Array("par_val0", Obj, Obj)
+        pars = Rec("Mapping", {"__map__": SMap(has0, val0)})
+        self_rec = Rec("Builder", {"naming": Rec("Naming", {}), "__ingredients": Rec("Ingredients", {"parameter_defaults": pars})})
+        suffix = z3.Const("suffix", Obj)
+        symf = z3.Function("Symbol_of_name", Obj, Obj)
+        fstr = z3.Function("fstring", Obj, Obj)
+        ex.natives["Naming.generate_sequential_amplitude_suffix"] = lambda e, st, a, k: iter([(st, SV(suffix, "obj"))])
+        ex.natives["Naming.generate_two_body_decay_suffix"] = lambda e, st, a, k: iter([(st, SV(suffix, "obj"))])
+        ex.natives["Symbol"] = lambda e, st, a, k: iter([(st, SV(symf(e.as_obj(a[0])), "obj"))])
+        args = [self_rec, SV(z3.Const("transition", Obj), "obj")] + ([SV(z3.Int("node_id"), "int")] if nargs == 2 else [])
+        try:
+            outs = ex.run(meth, args)
+        except Unsupported as e:
+            chk.struct(f"registration[{private}].in_supported_subset", False, FN, witness=str(e), lemma=True, replay=zoo_replay)
+            continue
+        chk.struct(f"registration[{private}].in_supported_subset", True, FN, lemma=True)
+        posts, frames = [], []
+        xq = z3.Const("x!reg", Obj)
+        for oc in outs:
+            pc = z3.And(*oc.st.pc) if oc.st.pc else z3.BoolVal(True)
+            if oc.kind != "return" or not isinstance(oc.value, SV):
+                posts.append(z3.Not(pc))
+                continue
+            rec = oc.st.env["self"] if "self" in oc.st.env else self_rec
+            m = rec.attrs["__ingredients"].attrs["parameter_defaults"].attrs["__map__"]
+            r = ex.as_obj(oc.value)
+            posts.append(z3.Implies(pc, z3.Select(m.has, r)))
+            frames.append(z3.Implies(pc, z3.ForAll([xq], z3.Implies(xq != r, z3.And(z3.Select(m.has, xq) == z3.Select(has0, xq), z3.Select(m.val, xq) == z3.Select(val0, xq))))))
+        chk.smt(f"registration[{private}].ens.returned_symbol_is_a_parameter", [], z3.And(*posts) if posts else z3.BoolVal(False), function=FN, replay=zoo_replay, tactics=("default",))
+        chk.smt(f"registration[{private}].frame.other_parameters_unchanged", [], z3.And(*frames) if frames else z3.BoolVal(False), function=FN, replay=zoo_replay, tactics=("default",), lemma=True)
+
+    # (b) builders
+    from ampform.dynamics.builder import TwoBodyKinematicVariableSet
+
+    part = qrules.particle.Particle(name="R", latex="R", pid=99999, spin=1, mass=1.5, width=0.2)
+    s_, m1, m2, phi, theta = sp.symbols("s_in m_out1 m_out2 phi_in theta_in", nonnegative=True)
+    builders = {"create_non_dynamic": DB.create_non_dynamic, "create_non_dynamic_with_ff": DB.create_non_dynamic_with_ff,
+                "create_analytic_breit_wigner": DB.create_analytic_breit_wigner, "create_relativistic_breit_wigner": DB.create_relativistic_breit_wigner,
+                "create_relativistic_breit_wigner_with_ff": DB.create_relativistic_breit_wigner_with_ff}
+    for flags in ((False, False), (True, False), (False, True), (True, True)):
+        builders[f"RelativisticBreitWignerBuilder(energy_dependent_width={flags[0]};form_factor={flags[1]})"] = DB.RelativisticBreitWignerBuilder(energy_dependent_width=flags[0], form_factor=flags[1])
+    public = sorted(n for n, f in vars(DB).items() if n.startswith("create_") and callable(f))
+    chk.struct("dynamics_builder.frame.covers_every_public_builder", set(public) <= set(builders), "ampform.dynamics.builder", witness=sorted(set(public) - set(builders)), lemma=True, replay=zoo_replay)
+    for bname, b in builders.items():
+        for ell in (None, 0, 1, 2, 4):
+            vs = TwoBodyKinematicVariableSet(incoming_state_mass=s_, outgoing_state_mass1=m1, outgoing_state_mass2=m2, helicity_theta=theta, helicity_phi=phi, angular_momentum=ell)
+
+            def run(b=b, vs=vs):
+                try:
+                    expr, params = b(part, vs)
+                except ValueError as e:
+                    if "Angular momentum is not defined" in str(e) or "angular momentum" in str(e).lower():
+                        return None  # documented refusal
+                    raise
+                allowed = {s_, m1, m2, phi, theta} | set(params)
+                return sorted(str(x) for x in expr.free_symbols - allowed), sorted(str(x) for x in set(params) & {s_, m1, m2, phi, theta})
+
+            def rep(_m=None, run=run, bname=bname, ell=ell):
+                try:
+                    r = run()
+                except Exception as e:  # noqa: BLE001
+                    return {"reproduced": True, "input": f"{bname}(particle, variable set with L={ell})", "observed": f"{type(e).__name__}: {e}"[:300]}
+                if r is None:
+                    return {"reproduced": False, "note": "documented refusal (no angular momentum)"}
+                return {"reproduced": bool(r[0] or r[1]), "input": f"{bname}(particle R, variable set of fresh symbols, L={ell})", "observed": {"free symbols that are neither variables nor returned parameters": r[0], "variables returned as parameters": r[1]},
+                        "expected": "free symbols of the lineshape are variables of the node or returned parameters"}
+
+            r = rep()
+            chk.struct(f"dynamics_builder.frame[{bname}/L={ell}]", not r["reproduced"], "ampform.dynamics.builder." + bname.split("(")[0], witness=r, replay=rep, bounded=True)
